@@ -26,7 +26,7 @@ import random
 
 CMDS = ("continue", "fail", "noop", "retry")
 RETRY_CMD = "retry"
-BAD_KINDS = ("undef", "key", "type", "func")
+BAD_KINDS = ("undef", "key", "type", "func", "str")
 
 
 def task(join=0, items=-1, conc=-1, concx=False, delay=-1, retry=None, next=None):
@@ -77,6 +77,8 @@ def _bad(lang, kind):
         return _wrap(lang, "1 + {}", "1 + {}")
     if kind == "func":
         return _wrap(lang, "nosuchfn__(1)", "nosuchfn__(1)")
+    if kind == "str":           # evaluates fine, to a string - an error where an integer (or a list) is required
+        return _wrap(lang, "'two'", "'two'")
     raise ValueError(kind)
 
 
